@@ -79,6 +79,7 @@ def gen_histories(ctx, n, r=None):
 
 
 def correspondence(ctx, model_ok):
+    gen.HOSTILE_P = 0.03     # unusual but legal labels: '', '@', 'a@b', mutual prefixes, case pairs
     r = CorrResult()
     r.rule = ('seeded histories of 1-25 public mutator calls (24 kinds, all connect wrappers, replace_subcircuit, '
               'into_bench, copy, block extraction) on random well-formed start circuits, ~8% deliberately invalid '
